@@ -100,7 +100,36 @@ def run(rec, cfg):
         rec.arm("tok:via-parser:" + ("pad" if keep else "nopad"))
         MP.check_tokens("C11", s, keep, res, exc)
 
+    class WideTokenizer(Tokenizer):
+        """a caller's own tokenizer: Greek letters are letters, '_' may group digits (the two predicates are the
+        documented extension points).  Whatever it accepts, the stock class goes on rejecting."""
+
+        def is_alpha(self, c):
+            return super().is_alpha(c) or ("\u03b1" <= c <= "\u03c9")
+
+        def is_number(self, c):
+            return super().is_number(c) or c == "_"
+
+    wide = WideTokenizer()
+    wide._vmon_skip = True
+    plain_tok = getattr(Tokenizer.tokenize, "__vmon_original__", Tokenizer.tokenize)
+
     for n_s, s in enumerate(strings(cfg, rng)):
+        if n_s % 5 == 0:
+            # the subclass reads a text with its extra characters (and the current string), then the stock
+            # tokenizers read theirs as ever: decided below like every other call
+            for t in ("2\u03b1 + 1_000", "\u03b2x", s[:40]):
+                try:
+                    plain_tok(wide, t)
+                except Exception:
+                    pass
+            rec.arm("tok:a-subclass-with-wider-character-classes-works-alongside")
+            for t in ("2\u03b1 + x", "1_000", "\u03b2", "x_1"):
+                for tk in toks.values():
+                    try:
+                        tk.tokenize(t)
+                    except Exception:
+                        pass
         if cfg.out_of_time():
             rec.truncated = True
             break
@@ -208,6 +237,17 @@ def run(rec, cfg):
 def replay(rec, cfg, w):
     from mathy_core.tokenizer import Tokenizer
 
+    class WideTokenizer(Tokenizer):
+        def is_alpha(self, c):
+            return super().is_alpha(c) or not c.isascii()
+
+        def is_number(self, c):
+            return super().is_number(c) or c == "_"
+
+    try:
+        WideTokenizer().tokenize(w["text"])      # (a caller's subclass with wider character classes read the text before)
+    except Exception:
+        pass
     MP.attach_tokenizer("C11")
     from mathy_core.parser import ExpressionParser
 
